@@ -3253,7 +3253,7 @@ def table_lookup(image, table, border_value, iterations=None):
         invert = True
         image = ~image
         # table index 0 -> 511 and the output is reversed
-        table = ~table[511 - np.arange(512)]
+        table = np.logical_not(table[511 - np.arange(512)])
         border_value = not border_value
     if use_index_trick:
         orig_image = image
